@@ -477,3 +477,70 @@ def replay_eventlist(rec):
         if f:
             return {"reproduced": True, "input": f, "observed": f["failure"]}
     return {"reproduced": False, "note": "no failing event-list history found (6000 random histories)"}
+
+
+# ------------------------------------------------------------------ C12 / C13 streams
+def _child_seeds(code, hashseeds=("0", "1", "2")):
+    import os
+    import subprocess
+    import sys
+    outs = []
+    for hs in hashseeds:
+        env = dict(os.environ)
+        env["PYTHONHASHSEED"] = hs
+        p = subprocess.run([sys.executable, "-c", code], capture_output=True, text=True, env=env, timeout=60)
+        outs.append((p.stdout.strip() or p.stderr.strip()[-200:]))
+    return outs
+
+
+@replayer(r"(SimpleStreamUpdater|StreamSeedUpdater|StreamUpdater)\..*")
+def replay_updaters(rec):
+    from pydsol.core.streams import MersenneTwister, SimpleStreamUpdater, StreamSeedUpdater
+    ob = rec.get("obligation", "")
+    # process-dependence: the same (name, original seed, replication) in interpreters with different
+    # hash randomisation
+    code = ("from pydsol.core.streams import MersenneTwister, SimpleStreamUpdater, StreamSeedUpdater\n"
+            "out=[]\n"
+            "for name, seed, r in (('default', 10, 3), ('arrivals', 7, 1), ('x', 0, 5)):\n"
+            "    s = MersenneTwister(seed); SimpleStreamUpdater().update_seed(name, s, r); out.append((s.seed(), s.next_float()))\n"
+            "    s = MersenneTwister(seed); StreamSeedUpdater({'other': [1, 2]}).update_seed(name, s, r) if True else None; out.append(s.seed())\n"
+            "print(out)\n")
+    code2 = ("from pydsol.core.streams import MersenneTwister, SimpleStreamUpdater\n"
+             "out=[]\n"
+             "for name, seed, r in (('default', 10, 3), ('arrivals', 7, 1), ('x', 0, 5)):\n"
+             "    s = MersenneTwister(seed); SimpleStreamUpdater().update_seed(name, s, r); out.append((s.seed(), s.next_float()))\n"
+             "print(out)\n")
+    outs = _child_seeds(code2)
+    if len(set(outs)) > 1:
+        return {"reproduced": True, "input": {"streams": [["default", 10, 3], ["arrivals", 7, 1], ["x", 0, 5]],
+                                              "PYTHONHASHSEED": ["0", "1", "2"]},
+                "observed": "seeds/first draws differ between interpreter processes: %s" % outs}
+    # unknown stream name with a seed table: must fall back, not raise
+    try:
+        s = MersenneTwister(10)
+        StreamSeedUpdater({"other": [1, 2, 3]}).update_seed("default", s, 1)
+    except Exception as e:
+        return {"reproduced": True, "input": {"table": {"other": [1, 2, 3]}, "stream_id": "default", "replication_nr": 1},
+                "observed": "%s: %s" % (type(e).__name__, e)}
+    # table semantics / rejected replication numbers leave the stream alone
+    rng = random.Random(3)
+    for _ in range(300):
+        table = {"a": [rng.randrange(100) for _ in range(rng.randrange(0, 4))], "b": [5, 6]}
+        name = rng.choice(["a", "b", "c"])
+        r = rng.choice([-1, 0, 1, 2, 3, 5, "x"])
+        s = MersenneTwister(10)
+        before = (s.seed(), s.save_state())
+        try:
+            StreamSeedUpdater(table).update_seed(name, s, r)
+            if name in table:
+                if not (isinstance(r, int) and 0 <= r < len(table[name])) or s.seed() != table[name][r]:
+                    return {"reproduced": True, "input": {"table": table, "name": name, "r": r},
+                            "observed": "seed %r after update" % s.seed()}
+        except (TypeError, ValueError):
+            if (s.seed(), s.save_state()) != before:
+                return {"reproduced": True, "input": {"table": table, "name": name, "r": r},
+                        "observed": "rejected update changed the stream"}
+        except Exception as e:
+            return {"reproduced": True, "input": {"table": table, "name": name, "r": r},
+                    "observed": "%s: %s" % (type(e).__name__, e)}
+    return {"reproduced": False, "note": "seed updates agree across 3 interpreter processes; table semantics hold on 300 random cases"}
